@@ -86,15 +86,25 @@ pub enum StaticData {
     OptWriteC,
     ReadExpectA,
     ReadAWriteC,
+    /// `(Option<Read<A>>, Read<A>)`: the resource is first named by a member that creates nothing
+    OptReadAThenReadA,
+    /// `((ReadExpect<A>, Option<Read<C>>), (Read<A>, Read<C>))`: a bundle that only names, then one that provides
+    NamingThenProviding,
+    /// a derived bundle that is generic over the resource it reads, instantiated with A ...
+    GenReadA,
+    /// ... and with C
+    GenReadC,
 }
 
 impl StaticData {
-    pub fn all() -> [StaticData; 7] {
-        [StaticData::Unit, StaticData::ReadA, StaticData::WriteC, StaticData::OptReadA, StaticData::OptWriteC, StaticData::ReadExpectA, StaticData::ReadAWriteC]
+    pub fn all() -> [StaticData; 11] {
+        [StaticData::Unit, StaticData::ReadA, StaticData::WriteC, StaticData::OptReadA, StaticData::OptWriteC, StaticData::ReadExpectA, StaticData::ReadAWriteC, StaticData::OptReadAThenReadA, StaticData::NamingThenProviding, StaticData::GenReadA, StaticData::GenReadC]
     }
     pub fn reads(self) -> Vec<u8> {
         match self {
-            StaticData::ReadA | StaticData::OptReadA | StaticData::ReadExpectA | StaticData::ReadAWriteC => vec![0],
+            StaticData::ReadA | StaticData::OptReadA | StaticData::ReadExpectA | StaticData::ReadAWriteC | StaticData::OptReadAThenReadA | StaticData::GenReadA => vec![0],
+            StaticData::NamingThenProviding => vec![0, 2],
+            StaticData::GenReadC => vec![2],
             _ => vec![],
         }
     }
@@ -109,7 +119,9 @@ impl StaticData {
         match self {
             StaticData::ReadA => vec![0],
             StaticData::WriteC => vec![2],
-            StaticData::ReadAWriteC => vec![0, 2],
+            StaticData::ReadAWriteC | StaticData::NamingThenProviding => vec![0, 2],
+            StaticData::OptReadAThenReadA | StaticData::GenReadA => vec![0],
+            StaticData::GenReadC => vec![2],
             _ => vec![],
         }
     }
@@ -122,6 +134,10 @@ impl StaticData {
             StaticData::OptWriteC => "Option<Write<C>>",
             StaticData::ReadExpectA => "ReadExpect<A>",
             StaticData::ReadAWriteC => "(Read<A>, Write<C>)",
+            StaticData::OptReadAThenReadA => "(Option<Read<A>>, Read<A>)",
+            StaticData::NamingThenProviding => "((ReadExpect<A>, Option<Read<C>>), (Read<A>, Read<C>))",
+            StaticData::GenReadA => "GenRead<A>",
+            StaticData::GenReadC => "GenRead<C>",
         }
     }
 }
